@@ -41,7 +41,8 @@ CONSTANTS
   FALLBACK,      \* subset of BOOLEAN: is a fallback port configured (WithTLSPortPolicy)
   DEV_ImplicitDot, DEV_NoRsetAfterDataReject, DEV_ContinueAfterRsetFail,
   DEV_LeakOnDialError, DEV_QuitFailureLeavesConn, DEV_NoDeadlineInDial,
-  DEV_NoopBeforeDeadline, DEV_WindowStaysOpen, DEV_FallbackInClear, DEV_DialKeepsConnection,
+  DEV_NoopBeforeDeadline, DEV_WindowStaysOpen, DEV_FallbackInClear, DEV_DialKeepsConnection, DEV_WindowNeedsDebug,
+  LATEDEBUG,     \* subset of BOOLEAN: debug logging is switched on only while the AUTH exchange is in flight (before its first response)
   REDIAL         \* subset of BOOLEAN: the Client first dials with TLS policy none, then the policy of the scenario is set and it dials again
 
 VARIABLES cl,    \* client state (record)
@@ -67,7 +68,7 @@ OkCode(v) == CASE v = "DATA" -> 354 [] v = "QUIT" -> 221 [] v \in {"GREET", "STA
 OkChoice == [c |-> "ok", sh |-> "none"]
 EnvChoices == {OkChoice} \cup
               (IF env.budget > 0
-               THEN {[c |-> c, sh |-> IF c \in {"t4", "p5"} THEN s ELSE "none"] : c \in CLASSES \ {"mal", "refuse", "cstall", "cwfail", "xclose"}, s \in SHAPES}
+               THEN {[c |-> c, sh |-> IF c \in {"t4", "p5"} THEN s ELSE "none"] : c \in CLASSES \ {"mal", "refuse", "cstall", "cwfail", "xclose", "xnoop"}, s \in SHAPES}
                ELSE {})
 (* OP = "RawAuth": the smtp package used directly - NewClient, Auth (with its lazy EHLO), Quit *)
 DialFaults  == OP \notin {"Send", "Reset"}     \* in Send / Reset mode the dial is the clean prefix
@@ -80,6 +81,10 @@ AuthChoices == DialChoices \cup (IF DialFaults /\ env.budget > 0 /\ "mal" \in CL
                            \* "xclose": another goroutine calls smtp.Client.Close while Auth is between two commands
                            \cup (IF OP = "RawAuth" /\ env.budget > 0 /\ "xclose" \in CLASSES
                                  THEN {[c |-> "xclose", sh |-> "none"]} ELSE {})
+                           \* "xnoop": another goroutine runs Noop() on the same smtp.Client after Auth opened the
+                           \* redaction window and before the AUTH command is sent
+                           \cup (IF OP = "RawAuth" /\ env.budget > 0 /\ "xnoop" \in CLASSES /\ cl.astep = 0
+                                 THEN {[c |-> "xnoop", sh |-> "none"]} ELSE {})
 
 Lost(c) == c \in {"drop", "stall", "wfail", "xclose"}   \* the connection is unusable afterwards (a garbage line is just a bad reply)
 
@@ -108,12 +113,15 @@ ReplyEv(v, ch, k, caps, code) ==
 
 (* debug log records (only when the scenario switches debug logging on):   *)
 (* inside the redaction window the payload is replaced                     *)
+(* is debug logging on for the exchange that is about to happen? (cfg.latedebug: switched on by the caller *)
+(* right before the first response of the AUTH exchange, and on from then)                               *)
+Dbg == cfg.debug /\ (~cfg.latedebug \/ cl.lateOn \/ (cl.pc = "authMsg" /\ cl.astep >= 1))
 LogEvs(cred, code) ==
-  IF ~cfg.debug THEN <<>>
+  IF ~Dbg THEN <<>>
   ELSE LET red == cl.authWin IN
        << [ev |-> "log", dir |-> "c2s", leak |-> (cred /\ ~red), post |-> cl.authOver, verbatim |-> ~red] >>
 LogReply(code, ch) ==
-  IF ~cfg.debug \/ Lost(ch.c) THEN <<>>
+  IF ~Dbg \/ Lost(ch.c) THEN <<>>
   ELSE << [ev |-> "log", dir |-> "s2c", leak |-> FALSE, post |-> cl.authOver,
            verbatim |-> ~(cl.authWin /\ code >= 300 /\ code <= 400)] >>
 
@@ -198,10 +206,10 @@ Reveals(mch, j) == (mch \in {"PLAIN", "XOAUTH2"} /\ j = 0) \/ (mch = "LOGIN" /\ 
 Cfgs ==
   {[op |-> OP, nr |-> nr, enc8 |-> e8, rf |-> rf, caps |-> cs, dsn |-> d, nonoop |-> nn, cs |-> rot,
     policy |-> pol, authtype |-> at, noenc |-> NoEncType(at), hostkind |-> hk, logauth |-> la,
-    debug |-> (at # "NOAUTH"), logger |-> lg, fallback |-> fb, starttls |-> st, authlist |-> al, hs |-> hs, caps2 |-> c2, redial |-> rd] :
+    debug |-> (at # "NOAUTH"), logger |-> lg, fallback |-> fb, starttls |-> st, authlist |-> al, hs |-> hs, caps2 |-> c2, redial |-> rd, latedebug |-> ld] :
      nr \in [1..N -> 1..MAXR], e8 \in [1..N -> ENC8], rf \in [1..N -> {"ok"} \cup RENDERKINDS],
      cs \in CAPSETS, d \in DSNS, nn \in NONOOP, rot \in CODESETS, pol \in POLICIES, at \in AUTHTYPES,
-     hk \in HOSTKINDS, la \in LOGAUTH, st \in STARTTLSADV, al \in AUTHLISTS, hs \in HANDSHAKES, c2 \in CAPS2, lg \in LOGGERS, fb \in FALLBACK, rd \in REDIAL}
+     hk \in HOSTKINDS, la \in LOGAUTH, st \in STARTTLSADV, al \in AUTHLISTS, hs \in HANDSHAKES, c2 \in CAPS2, lg \in LOGGERS, fb \in FALLBACK, rd \in REDIAL, ld \in LATEDEBUG}
 
 (* what the server puts into an EHLO reply *)
 Advertised(enc) ==
@@ -214,7 +222,7 @@ Init ==
   /\ cl = [pc |-> IF cfg.redial THEN "preDial" ELSE "dial", m |-> 1, r |-> 1, ext |-> {}, dead |-> FALSE, rej |-> <<>>,
            dl |-> [i \in 1..N |-> FALSE], se |-> [i \in 1..N |-> NoErr], top |-> "",
            dotOpen |-> 0, tls |-> FALSE, armed |-> FALSE, authWin |-> FALSE, authOver |-> FALSE,
-           mech |-> "", astep |-> 0]
+           mech |-> "", astep |-> 0, lateOn |-> FALSE]
   /\ env = [budget |-> BUDGET, nfault |-> 0, hist |-> <<>>, pred |-> <<>>]
   /\ obs = Observe(InitObs, [ev |-> "begin", cfg |-> cfg])
 
@@ -392,8 +400,9 @@ AuthStart ==
   /\ UNCHANGED <<env, cfg>>
   /\ obs' = obs
   /\ IF cl.mech \in {"PLAIN", "LOGIN"} /\ ~cfg.noenc /\ ~cl.tls /\ cfg.hostkind \notin LocalKinds
-     THEN cl' = [cl EXCEPT !.pc = "authQuit", !.authWin = ~cfg.logauth]
-     ELSE cl' = [cl EXCEPT !.pc = "authMsg", !.astep = 0, !.authWin = ~cfg.logauth]
+     THEN cl' = [cl EXCEPT !.pc = "authQuit", !.authWin = ~cfg.logauth /\ (DEV_WindowNeedsDebug => Dbg)]
+     \* (the window is opened whether or not debug logging is on at this moment: it may be switched on later)
+     ELSE cl' = [cl EXCEPT !.pc = "authMsg", !.astep = 0, !.authWin = ~cfg.logauth /\ (DEV_WindowNeedsDebug => Dbg)]
 
 (* message j of the exchange: the AUTH command (j = 0) or a response; the  *)
 (* honest server continues with 334 while j < Steps(mech), then sends 235  *)
@@ -401,17 +410,26 @@ AuthMsg ==
   /\ cl.pc = "authMsg"
   /\ \E ch \in AuthChoices :
        LET j == cl.astep
+           cb == [cl EXCEPT !.lateOn = @ \/ (cfg.latedebug /\ j >= 1)]     \* the caller's SetDebugLog(true) stays in force
            honest == IF j < Steps(cl.mech) THEN 334 ELSE 235
-           x == X(IF j = 0 THEN "AUTH" ELSE "AUTHRESP", 0, j, <<>>, Reveals(cl.mech, j),
-                  IF j = 0 THEN cl.mech ELSE "", ch, <<>>, honest) IN
+           \* "xnoop": the NOOP of the other goroutine and its reply come first, then the command as usual
+           xn == X("NOOP", 0, 0, <<>>, FALSE, "", OkChoice, <<>>, 250)
+           xa == XO(xn.obs, "AUTH", 0, 0, <<>>, Reveals(cl.mech, 0), cl.mech, OkChoice, <<>>, honest)
+           x == IF ch.c = "xnoop"
+                THEN [obs |-> xa.obs,
+                      env |-> [env EXCEPT !.pred = @ \o <<xn.env.pred[Len(xn.env.pred)], xa.env.pred[Len(xa.env.pred)]>>,
+                                          !.budget = @ - 1, !.nfault = @ + 1,
+                                          !.hist = Append(@, [v |-> "AUTH", m |-> 0, r |-> 0, c |-> "xnoop", sh |-> "none"])]]
+                ELSE X(IF j = 0 THEN "AUTH" ELSE "AUTHRESP", 0, j, <<>>, Reveals(cl.mech, j),
+                       IF j = 0 THEN cl.mech ELSE "", ch, <<>>, honest) IN
        /\ obs' = x.obs /\ env' = x.env
        /\ IF Blocks(ch) THEN Goto("blocked")
-          ELSE IF ch.c = "ok" /\ honest = 334 THEN cl' = [cl EXCEPT !.astep = j + 1]
-          ELSE IF ch.c = "ok" THEN cl' = [cl EXCEPT !.pc = "dialOK", !.authWin = DEV_WindowStaysOpen /\ @, !.authOver = TRUE]
-          ELSE IF Lost(ch.c) THEN cl' = [cl EXCEPT !.pc = "authQuit", !.dead = TRUE]
+          ELSE IF ch.c \in {"ok", "xnoop"} /\ honest = 334 THEN cl' = [cb EXCEPT !.astep = j + 1]
+          ELSE IF ch.c \in {"ok", "xnoop"} THEN cl' = [cb EXCEPT !.pc = "dialOK", !.authWin = DEV_WindowStaysOpen /\ @, !.authOver = TRUE]
+          ELSE IF Lost(ch.c) THEN cl' = [cb EXCEPT !.pc = "authQuit", !.dead = TRUE]
           \* an unparsable reply is an error of cmd() itself: Auth returns at once, without "*" or QUIT
-          ELSE IF ch.c = "garbage" THEN cl' = [cl EXCEPT !.pc = "authQuit", !.dead = TRUE]
-          ELSE cl' = [cl EXCEPT !.pc = IF cl.mech = "XOAUTH2" THEN "authQuit" ELSE "authAbort"]
+          ELSE IF ch.c = "garbage" THEN cl' = [cb EXCEPT !.pc = "authQuit", !.dead = TRUE]
+          ELSE cl' = [cb EXCEPT !.pc = IF cl.mech = "XOAUTH2" THEN "authQuit" ELSE "authAbort"]
   /\ UNCHANGED cfg
 
 (* "*" aborts the exchange (expects 501); not sent for XOAUTH2 *)
